@@ -96,6 +96,55 @@ func c17R1one(c *Ctx, m *runnerModel, f *Func, x *expander, e *entFn, dispatch *
 	}
 	okArgs := valuesVar != "" && argsS == valuesVar+"[1:]"
 	c.ob("C17.R1", f.Name+"/dispatch-arguments"+sfx, w.Pos(dispatch.Pos()), okName && okArgs, map[bool]string{true: "dispatches (*values[0].String, values[1:])", false: "dispatches (" + nameS + ", " + argsS + "): want the first value's string as the name and all remaining values as arguments"}[okName && okArgs])
+	// the list handed over is the one evaluated in this activation: a local that is made empty and only appended to
+	if okArgs {
+		var vobj types.Object
+		if se, ok := unparen(dispatch.Args[1]).(*ast.SliceExpr); ok {
+			if id := identOf(se.X); id != nil {
+				vobj = info.Uses[id]
+			}
+		}
+		okFresh, why := vobj != nil, "the argument list is not a local"
+		if vobj != nil {
+			why = "the argument list is made empty in this call and only appended to by the evaluation loop"
+			for _, a := range e.assigns[vobj] {
+				switch as := a.(type) {
+				case *ast.ValueSpec:
+					if len(as.Values) != 0 {
+						okFresh, why = false, "the argument list is initialised from "+exprStr(as.Values[0])
+					}
+				case *ast.AssignStmt:
+					if len(as.Lhs) != len(as.Rhs) {
+						okFresh, why = false, "the argument list receives a result of "+exprStr(as.Rhs[0])+": it can be a list that was not evaluated in this activation (kept from an earlier execution of the statement, say)"
+						continue
+					}
+					for i, l := range as.Lhs {
+						if id := identOf(l); id == nil || (info.Uses[id] != vobj && info.Defs[id] != vobj) {
+							continue
+						}
+						rhs := unparen(as.Rhs[i])
+						if call, ok := rhs.(*ast.CallExpr); ok {
+							if isBuiltin(info, call, "make") {
+								continue
+							}
+							if isBuiltin(info, call, "append") && len(call.Args) == 2 && !call.Ellipsis.IsValid() {
+								if aid := identOf(call.Args[0]); aid != nil && info.Uses[aid] == vobj {
+									continue
+								}
+							}
+						}
+						if cl, ok := rhs.(*ast.CompositeLit); ok && len(cl.Elts) == 0 {
+							continue
+						}
+						okFresh, why = false, "the argument list is assigned "+shorten(exprStr(as.Rhs[i]), 80)+": it can be a list that was not evaluated in this activation (kept from an earlier execution of the statement, say)"
+					}
+				default:
+					okFresh, why = false, "the argument list is assigned in an unrecognised way"
+				}
+			}
+		}
+		c.ob("C17.R3", f.Name+"/arguments-evaluated-now"+sfx, w.Pos(dispatch.Pos()), okFresh, why)
+	}
 	at := site{pos: dispatch.Pos(), anc: dispatch}
 	k := keyCtx{e: e, s: &at}
 	// name != "stop"
